@@ -22,8 +22,77 @@ EXC = {'BaseException': BaseException, 'Exception': Exception, 'TypeError': Type
        'AttributeError': AttributeError, 'ValueError': ValueError, 'LookupError': LookupError,
        'KeyError': KeyError, 'AssertionError': AssertionError, 'KeyboardInterrupt': KeyboardInterrupt,
        'SystemExit': SystemExit, 'NotImplementedError': NotImplementedError}
+
+
+# ---- user-defined exception classes (round g, seed C06-g): to a matcher they are classes like any other - only issubclass counts
+import abc as _abc, collections as _collections
+
+
+class MetaError(Exception, metaclass=_abc.ABCMeta):
+    """a class whose type is not literally `type`"""
+
+
+class MetaSub(MetaError):
+    pass
+
+
+class _CountingMeta(type):
+    """a custom metaclass"""
+    created = 0
+
+    def __new__(mcs, name, bases, ns):
+        _CountingMeta.created += 1
+        return super().__new__(mcs, name, bases, ns)
+
+
+class MetaValueError(ValueError, metaclass=_CountingMeta):
+    pass
+
+
+class OddError(LookupError):
+    """__slots__, and an == of its own: same class and same args (honest - the value universe has no dishonest ==; within a case
+    equal exceptions are one interned object anyway, so this is the equality the model uses)"""
+    __slots__ = ()
+
+    def __eq__(self, other):
+        return type(other) is type(self) and other.args == self.args
+
+    def __ne__(self, other):
+        return not self == other
+
+    def __hash__(self):
+        return hash((type(self), self.args))
+
+
+class StrRaisesError(Exception):
+    def __str__(self):
+        raise ValueError('this exception has no text')
+
+
+class UserInterrupt(KeyboardInterrupt):
+    pass
+
+
+class UserExit(SystemExit):
+    pass
+
+
+USER_EXC = {c.__name__: c for c in (MetaError, MetaSub, MetaValueError, OddError, StrRaisesError, UserInterrupt, UserExit)}
+EXC.update(USER_EXC)
 EXC_NAME = {v: k for k, v in EXC.items()}
-RAISABLE = ['ValueError', 'KeyError', 'LookupError', 'Exception', 'KeyboardInterrupt', 'SystemExit', 'AssertionError']
+RAISABLE = ['ValueError', 'KeyError', 'LookupError', 'Exception', 'KeyboardInterrupt', 'SystemExit', 'AssertionError',
+            'MetaError', 'MetaSub', 'MetaValueError', 'OddError', 'StrRaisesError', 'UserInterrupt', 'UserExit']
+# classes to expect for a raised / given class `c`: itself, its modelled bases, siblings
+EXC_BASES = {n: [EXC_NAME[b] for b in c.__mro__ if b in EXC_NAME] for n, c in EXC.items()}
+_NT = {}
+
+
+def named_tuple_of(classes):
+    """the classes as an instance of a tuple SUBCLASS (a named tuple): "as with isinstance, any of the types in the tuple" """
+    n = len(classes)
+    if n not in _NT:
+        _NT[n] = _collections.namedtuple('Expected%d' % n, ['c%d' % i for i in range(n)])
+    return _NT[n](*classes)
 
 
 def key(k):
@@ -578,6 +647,9 @@ class C06(Prop):
         'the two builds of an expression differ in the iteration order of set(<matchers of a MatchesSetwise>), forced by re-allocating the matcher objects until list(set(..)) has the order given in the input (the verdict must not depend on it)',
         'MatchesSetwise asks every matcher about every value once, value by value (the first exception propagates); the pairing algorithm itself is abstracted to its outcome',
         'the class of an exception propagating out of an expression that contains a dict matcher is compared as Any (set-of-str iteration order is randomised per process; non-dict matchees make the three parts raise different classes)',
+        'exception vocabulary: the builtin classes of EXC and seven user-defined ones - MetaError(Exception, metaclass=abc.ABCMeta), its subclass MetaSub, MetaValueError(ValueError, metaclass=<a type subclass>), OddError(LookupError) with __slots__ and its own (honest: class and args) ==, StrRaisesError whose __str__ raises ValueError, UserInterrupt(KeyboardInterrupt), UserExit(SystemExit); `expected` is a class, a tuple of classes or (hint NT) a NAMED tuple of classes - a tuple subclass; value_re is None, a regex str (applied to str() of the exception) or a matcher; the instance form compares class (issubclass, as the code does) and args (one int). To the model a class is its row of bases only',
+        'Raises: "Exceptions which are not subclasses of Exception propagate out of the Raises.match call unless they are explicitly matched" (docstring) - KeyboardInterrupt / SystemExit and their subclasses propagate when the exception matcher does not match them',
+        'a value whose __str__ raises (StrRaisesError instances) makes MatchesException(type, "regex") and the `message % (x,)` of MatchesPredicate raise that ValueError inside match(): modelled; the spec says nothing (outside the documented domain of both)',
         'exc_info tuples are never iterated / compared by == inside Raises (their traceback member is outside the value universe)',
     ]
 
@@ -763,6 +835,9 @@ class C06(Prop):
                 'NoneType': type(None), 'object': object}[t]
 
     def pyexc(self, names):
+        names = list(names)
+        if names and names[0] == 'NT':           # realisation hint: the tuple of classes is a NAMED tuple (a tuple subclass)
+            return named_tuple_of([EXC[n] for n in names[1:]])
         cs = tuple(EXC[n] for n in names)
         return cs[0] if len(cs) == 1 else cs
 
@@ -941,6 +1016,10 @@ class C06(Prop):
             inp = self.complete(fs_case(rng))
             if inp is not None:
                 return inp
+        if x < 0.28:
+            inp = self.complete(exc_case(rng, g))
+            if inp is not None:
+                return inp
         depth = rng.choice([0, 1, 1, 2, 2, 2, 3, 3, 4])
         while True:
             v = g.value()
@@ -1083,6 +1162,42 @@ def pairing_case(r):
 
 
 PERM_ROWS = [12, 22, 23, 24, 25, 26]
+
+
+def exc_case(r, g):
+    """MatchesException / Raises / raises over the exception vocabulary: an exc_info tuple or a raising callable of one of the
+    classes (user-defined ones - metaclass, named-tuple expectations, __slots__/__eq__, raising __str__, subclasses of the signal
+    exceptions - as likely as the builtins) against the type form (class, tuple, named tuple; value_re None / a regex str / a
+    matcher), the instance form (same / other args, same / base / sibling class), alone, negated, or under Raises / raises()"""
+    c = r.choice(RAISABLE + list(USER_EXC))
+    a = r.choice([0, 1, 2, 11])
+    n = r.choice([1, 1, 1, 2, 2, 3])
+    x = r.random()
+    if x < 0.3:
+        em = ['exctype', g.classes_for(c, n)]
+    elif x < 0.45:
+        em = ['exctypeRe', g.classes_for(c, n), ['opq', r.choice([20, 21])]]
+    elif x < 0.65:
+        inner = r.choice([['always'], ['never'], ['after', 'strOf', False, ['opq', 20]], ['not', ['never']],
+                          ['exctype', ['Exception']], ['isinst', 'int']])
+        em = ['exctypeV', g.classes_for(c, n), inner]
+    else:
+        w = [r.choice([c, c, c] + EXC_BASES[c] + [r.choice(RAISABLE)]), r.choice([a, a, a + 1])]
+        em = ['excinst'] + w
+    y = r.random()
+    if y < 0.45:
+        m, v = em, ['ei', c, a]
+    elif y < 0.6:
+        m, v = ['not', em], ['ei', c, a]
+    elif y < 0.8:
+        m, v = ['raises', em], ['fx', c, a]
+    elif y < 0.9:
+        m, v = (['raisesFn'] + g.classes_for(c, r.choice([1, 1, 2]))), ['fx', c, a]
+    elif y < 0.95:
+        m, v = ['raisesInst', r.choice([c] + EXC_BASES[c]), r.choice([a, a + 1])], ['fx', c, a]
+    else:
+        m, v = ['allmatch', em], ['l'] + [['ei', r.choice([c, r.choice(RAISABLE)]), a] for _ in range(r.choice([1, 2, 3]))]
+    return [m, v]
 
 
 def fs_case(r):
@@ -1368,6 +1483,16 @@ class Gen:
             return [h, v[1], v[2] + 1] if x < 0.75 else [h, r.choice(RAISABLE), v[2]]
         return v
 
+    def classes_for(self, c, n):
+        """n classes to expect when the exception at hand has class `c`: mostly `c`, its bases, a sibling; two or more classes
+        come as a plain tuple or (hint NT) as a named tuple; one class as the class itself or (NT) as a named 1-tuple"""
+        r = self.r
+        pool = [c, c] + EXC_BASES.get(c, [c]) + ['Exception', 'BaseException', 'LookupError', 'ValueError', 'KeyboardInterrupt', r.choice(RAISABLE)]
+        cs = [r.choice(pool) for _ in range(n)]
+        if r.random() < (0.35 if n >= 2 else 0.12):
+            cs = ['NT'] + cs
+        return cs
+
     # --- matchers
     def vtype(self, v):
         if not isinstance(v, list):
@@ -1499,11 +1624,9 @@ class Gen:
             r.shuffle(ks)
             return ['keys'] + ks
         if k == 'exctype':
-            cs = [r.choice([v[1], v[1], 'Exception', 'BaseException', 'LookupError', 'ValueError', 'KeyboardInterrupt'])
-                  for _ in range(r.choice([1, 1, 1, 2, 0]))]
-            return ['exctype', cs]
+            return ['exctype', self.classes_for(v[1], r.choice([1, 1, 1, 2, 0]))]
         if k == 'exctypeRe':
-            return ['exctypeRe', [r.choice([v[1], 'BaseException', 'ValueError'])], ['opq', r.choice([20, 21])]]
+            return ['exctypeRe', self.classes_for(v[1], r.choice([1, 1, 1, 2])), ['opq', r.choice([20, 21])]]
         if k == 'excinst':
             w = self.near(v)
             return ['excinst', w[1], w[2]]
@@ -1511,8 +1634,7 @@ class Gen:
             return ['raisesAny']
         if k == 'raisesFn':
             c = v[1] if v[0] == 'fx' else 'ValueError'
-            return ['raisesFn'] + [r.choice([c, c, 'Exception', 'BaseException', 'LookupError', 'KeyboardInterrupt'])
-                                   for _ in range(r.choice([1, 1, 2]))]
+            return ['raisesFn'] + self.classes_for(c, r.choice([1, 1, 2]))
         if k == 'raisesInst':
             w = self.near(v) if v[0] == 'fx' else ['fx', 'ValueError', 1]
             return ['raisesInst', w[1], w[2]]
@@ -1635,7 +1757,7 @@ class Gen:
                     out.append([a, m])
             return ['struct'] + out
         if k == 'exctypeV':
-            cs = [r.choice([v[1], v[1], 'Exception', 'BaseException', 'ValueError'])]
+            cs = self.classes_for(v[1], r.choice([1, 1, 2]))
             return ['exctypeV', cs, self.matcher(['ev', v[1], v[2]], depth - 1)]
         if k == 'raises':
             if v[0] == 'fx':
